@@ -139,3 +139,46 @@ def parallel_runs(chk, tracefile):
         elif i not in done:
             chk.drift_note("repository tests: parallel run %d not explained by the specification" % i)
     return acc
+
+
+def runtime_events(chk, tracefile):
+    """the runtime events of the pytest process (all its solves, manager resets and direct manager creations) vs TraceRuntime"""
+    from .trace_solver import read_events
+    from .common import run_tlc
+
+    keep = {"mgr_reset", "enter", "mgr_create", "thread_setup", "kernel_compile", "kernel_call", "return", "raise", "return_cached"}
+    pid = main_pid(tracefile)
+    evs = [e for e in read_events(tracefile) if e["ev"] in keep and e["pid"] == pid]
+    evs.sort(key=lambda e: e["seq"])
+    tr = []
+    for e in evs:
+        r = {"e": e["ev"]}
+        if e["ev"] == "enter":
+            r["fp"], r["an"] = bool(e["footprint"]), bool(e["analytic"])
+        elif e["ev"] == "mgr_create":
+            r["threads"], r["fftw"] = e["threads"], e["fftw"]
+        elif e["ev"] == "thread_setup":
+            r.update(cfg=e["cfg"], numba=e["numba"], mgr=e["mgr"], fftw=e["fftw"])
+        elif e["ev"] in ("kernel_compile", "kernel_call"):
+            r["parallel"] = bool(e["parallel"])
+        elif e["ev"] == "return":
+            r["mgr"] = 0 if e["mgr"] is None else e["mgr"]
+        tr.append(r)
+    chk.extra["repo_tests_runtime_events"] = len(tr)
+    if not tr:
+        return 0
+    d = common.scratch("trace_repo_runtime")
+    tf = os.path.join(d, "runtime_trace.json")
+    json.dump(tr, open(tf, "w"))
+    r = run_tlc("TraceRuntime", "TraceRuntime", workers=1, env={"TRACE_FILE": tf}, name="trace_repo_runtime", timeout=1800)
+    chk.states += r.distinct
+    chk.transitions += r.generated
+    reached = max([x["l"] for x in r.emitted] or [0])
+    ok = r.ok and reached == len(tr) + 1
+    chk.extra["repo_tests_runtime_events_matched"] = reached - 1
+    chk.extra["repo_tests_runtime_trace_accepted"] = ok
+    if not r.ok:
+        chk.violation("the repository's tests, recorded with the hooks on, violate %s of Runtime.tla" % r.violated, {"kind": "repo_runtime_trace", "context": tr[max(0, reached - 8): reached + 1]}, klass={"check": "trace_invariant"})
+    elif not ok:
+        chk.drift_note("repository tests: runtime trace not explained at event %d: %s" % (reached, json.dumps(tr[max(0, reached - 5): reached + 1])))
+    return 1 if ok else 0
